@@ -577,7 +577,7 @@ func (r *Run) gcScenario(i int) {
 	// ---- the call
 	rec := &gcLogRec{}
 	if rng.Intn(3) == 0 {
-		rec.slow = time.Duration(200+rng.Intn(1500)) * time.Microsecond
+		rec.slow = time.Duration(2000+rng.Intn(4000)) * time.Microsecond // longer than the rest of the traversal takes
 		r.hist("client/slow-consumer")
 	}
 	lg := log.Default.WithFilterLevel(log.Debug)
